@@ -55,8 +55,10 @@ def run(ctx):
     for fn in ('db::IndexedChangeSet::copy_to_overlay', 'db::IndexedChangeSet::write_plan', 'db::IndexedChangeSet::clean_overlay'):
         b = ctx.body(fn)
         if b:
-            lp = lib.for_loops_over(b, '.IndexedChangeSet.changes')
-            its = [t for bi, t in b.calls() if '.IndexedChangeSet.changes' in lib.receiver_fields(b, t, 0)]
+            # (the walk may live in a helper of the same type: write_plan plans the keyed changes through write_keyed_plan)
+            where = [b] + [F.body(n) for n in sorted(set(x for bi, t in b.calls() for x in call_names(t))) if n.startswith('db::IndexedChangeSet::') and F.body(n) is not None and n != fn]
+            lp = [l for w in where for l in lib.for_loops_over(w, '.IndexedChangeSet.changes')]
+            its = [t for w in where for bi, t in w.calls() if '.IndexedChangeSet.changes' in lib.receiver_fields(w, t, 0)]
             fwd = any(call_matches(t, ['core::slice::<impl [T]>::iter']) for t in its)
             ctx.ob('5c forward-iteration %s' % fn, 'K9-agreement', fn, 'iterates self.changes with slice::iter in a for loop', bool(lp) and fwd, 'loops %d' % len(lp))
     # 6. one hashing scheme
@@ -103,3 +105,4 @@ def run(ctx):
             lib.precedes(ctx, '6c key-hashed-before-lookup %s' % fn, b, hs, [g for g in gs if any(call_matches(b.term(g), ['re:and_then']) for _ in [0])] or gs[:1],
                          'the key is hashed with the column hasher before the overlay lookup in the hash arm')
     shared.one_salt_per_handle(ctx, '8')
+    shared.removal_planned_in_order(ctx, '9')   # a tree inserted after its removal in one transaction is there once the commit was processed (F63)
